@@ -63,6 +63,11 @@ def _full_api(ctx, orc, c, tag):
                 for fg in (True, False):
                     fs = orc.evaluate_codes(res, fg, res.get_ansi_codes(foreground=fg))
                     ctx.check(not fs, "get_ansi_codes", (L.color_key(res), fg), fs[0][1] if fs else "ok")
+    # Color.system / is_system_defined / is_default (and the name field through every answer above)
+    ans, pr = L.call(lambda: (int(c.system), bool(c.is_system_defined), bool(c.is_default)), lambda t: "%d %d %d" % t)
+    ctx.case("color.props", fields, ans, shape=f"type{int(c.type)}:{ans}")
+    ty = int(c.type)
+    ctx.check(pr == ((1 if ty == 0 else ty), ty in (0, 1, 4), ty == 0), "Color.system/is_system_defined/is_default", L.color_key(c), f"got {ans} for a colour of type {ty}")
     for fg in (True, False):
         ans, codes = L.call(lambda: c.get_ansi_codes(foreground=fg), lambda t: ",".join(t))
         ctx.case("color.ansi", fields + [enc_bool(fg)], ans, shape=f"type{int(c.type)}:{ans[:3]}", sample=f"{c!r}.get_ansi_codes(foreground={fg})")
@@ -129,8 +134,11 @@ def run(ctx):
         "math.sqrt is strictly increasing on 0..700,000 (every radicand of get_color_distance is <= 649,740): checked exhaustively each run, "
         "so the argmin over sqrt(d2) is the argmin over the integer d2",
         "functools.lru_cache on Color.downgrade / get_ansi_codes / Palette.match is transparent (answers of the cached function and of the function behind the cache - getattr(f, '__wrapped__', f) - compared, not modelled)",
-        "blend_rgb is modelled for cross_fade = k/2^n (n <= 40, |k| < 2^40: the double computation is exact there); other floats are not compared",
-        "parse_rgb_hex is modelled on ASCII strings (int(s, 16) also accepts Unicode digits/spaces: answered `unmodelled`)",
+        "blend_rgb: the dyadic model (cross_fade = k/2^n) is kept; since deepening 4 blend_rgb is also modelled in IEEE-754 binary64 (round-to-nearest-even to 53 bits after the "
+        "multiplication and after the addition, int() truncates, int(inf)/int(nan) raise) for every float with 2^-900 <= |x| <= 2^900, 0, inf, nan; floats outside that exponent range "
+        "(subnormal / overflowing products) answer `unmodelled`. Assumed: CPython float arithmetic is IEEE binary64 with round-to-nearest-even and no double rounding (compared on every run)",
+        "parse_rgb_hex: the ASCII model is kept (color.parse_hex answers `unmodelled` on non-ASCII); since deepening 4 parseRgbHexU models int(s, 16) on any code points through the runtime tables "
+        "Gen.strDecimalRuns / Gen.strWhitespace (str_tables.py, from the running Python), validated here on every code point; lone surrogates are outside Lean's Char and are not generated",
         "colour numbers / components are naturals; negative numbers and components above 255 answer `unmodelled`",
     ]
 
@@ -378,6 +386,8 @@ def run(ctx):
         blend_case(rt(), rt(), k, n)
     ctx.flush()
 
+    _deepen4(ctx, orc, hex_ts)
+
     ctx.rule = (
         "exhaustive: all 32,896 (max,min) channel pairs (float facts directly, and through Color.downgrade in every channel arrangement), "
         "all 256 channel values, every index of the four palettes, all 256 numbers x {STANDARD, EIGHT_BIT, WINDOWS} + default + ill-formed "
@@ -385,10 +395,212 @@ def run(ctx):
         "decision boundaries and on segments between palette entries, cube rounding thresholds; %d whole blue-rows (x 3 systems, 256 colours each) "
         "uncached%s; get_truecolor under seeded custom TerminalThemes (normal/bright of every length class) x 38 probe colours x fg/bg; ColorTriplet.hex / "
         "parse_rgb_hex on every two-character ASCII string in a component position; blend_rgb at cross_fade 1/2 on all 65,536 channel pairs + seeded dyadic "
-        "cross-fades. Direct evaluation also pins the documented 256-colour mapping (grey test at 10%% saturation, grey ramp step, nearest cube level) with an "
+        "cross-fades. Deepening 4: the exact-vs-double saturation decision on all 32,896 pairs (exact HLS in Fractions vs colorsys), blend_rgb in doubles at k/100 and k/255 on every (difference, k) whose exact "
+        "blend is an integer (the only inputs where the double result can differ from the exact one; all start values in the thorough tier, 2 seeded per pair in quick) + seeded fractional ones, "
+        "special floats (0.0, -0.0, 1.0, inf, -inf, nan, tiny, huge) and 12k seeded random floats; int(s, 16) on blocks of 256 code points in both positions of a component (every block that holds a "
+        "digit / space / numeric character with 7 partner characters, all other blocks below U+30000, a seeded tenth of the rest in quick, all in thorough), 4k seeded mixed ASCII/Unicode strings through "
+        "parse_rgb_hex; ColorTriplet.rgb / normalized; Color.system / is_system_defined / is_default on every colour of the API sweep. Direct evaluation also pins the documented 256-colour mapping (grey test at 10%% saturation, grey ramp step, nearest cube level) with an "
         "exact-arithmetic oracle. distinct = distinct canonical requests (a dg_block request stands for 256 colours)."
         % (n_rand, len(only16), len(rows), "" if ctx.quick else " = all 16,777,216 RGB colours")
     )
+
+
+def _enc_float(cf):
+    """wire form of a Python float: `f num sh` = num / 2^sh exactly (float.as_integer_ratio), or inf / -inf / nan"""
+    if cf != cf:
+        return ["nan", 0, 0]
+    if cf in (float("inf"), float("-inf")):
+        return ["inf" if cf > 0 else "-inf", 0, 0]
+    n, d = cf.as_integer_ratio()
+    return ["f", n, d.bit_length() - 1]
+
+
+def _deepen4(ctx, orc, hex_ts):
+    """fourth deepening: the saturation decision against exact arithmetic on every (max, min) pair; blend_rgb in doubles for
+    k/100, k/255 and arbitrary floats; parse_rgb_hex / int(.., 16) on every code point; ColorTriplet.rgb / normalized."""
+    import unicodedata
+    from colorsys import rgb_to_hls
+    from fractions import Fraction
+
+    from rich.color import blend_rgb, parse_rgb_hex
+    from rich.color_triplet import ColorTriplet
+
+    rng = ctx.rng
+
+    # ---- 8. satLow_eq_rat_iff / satLow_at_exception on real colorsys: all 32,896 pairs, exact HLS in Fractions
+    n_exc = 0
+    for M in range(256):
+        for m in range(M + 1):
+            r, g, b = ColorTriplet(M, m, m).normalized
+            fl = rgb_to_hls(r, g, b)[2] < 0.1
+            if M == m:
+                exact = True
+            else:
+                fM, fm = Fraction(M, 255), Fraction(m, 255)
+                l = (fM + fm) / 2
+                sat = (fM - fm) / (fM + fm) if l <= Fraction(1, 2) else (fM - fm) / (2 - fM - fm)
+                exact = sat < Fraction(1, 10)
+            listed = (M, m) in L.FLOAT_TIE_GREYS
+            n_exc += fl != exact
+            ctx.case("color.satrat", [M, m], "%d %d" % (exact, fl != exact), shape="exc" if fl != exact else "agree")
+            ctx.check((fl == exact) == (not listed) and (not listed or (fl and not exact)), "saturation:float-vs-exact", (M, m),
+                      f"colorsys says s<0.1 is {fl}, exact arithmetic {exact}, pair listed as float exception: {listed}")
+    ctx.note("sat:pairs where the double decision differs from the exact one", n_exc)
+    ctx.flush()
+
+    # ---- 9. blend_rgb in doubles
+    def blend_call(t1, t2, cf, shape):
+        ans, got = L.call(lambda: blend_rgb(ColorTriplet(*t1), ColorTriplet(*t2), cf), L.enc_triplet)
+        ctx.case("color.blendf", ["%d,%d,%d" % t1, "%d,%d,%d" % t2] + _enc_float(cf), ans, shape=shape + ":" + ans[:3] + (":" + ans.split(":")[-1] if ans.startswith("err") else ""),
+                 sample=f"blend_rgb({t1},{t2},{cf!r})" if rng.random() < 0.002 else None)
+        return got
+
+    def frac_eval(t1, t2, k, den, got):
+        """real result vs the exact rational blend with cross_fade = k/den: equal, except that where the exact value is an
+        integer the double computation may land just below it (k/den is not a double)."""
+        for p, q, x in zip(t1, t2, got):
+            num = p * den + (q - p) * k
+            ex = num // den  # values are >= 0 for 0 <= k <= den
+            integral = num % den == 0
+            ok = x == ex or (integral and x == ex - 1)
+            ctx.note("blend:k/%d:%s" % (den, "exact-integer:below" if x != ex else "exact-integer:same" if integral else "fractional"))
+            ctx.check(ok and min(p, q) <= x <= max(p, q), "blend_rgb:float-vs-exact", (t1, t2, k, den),
+                      f"channel {p}->{q} at {k}/{den} gave {x}; the exact blend is {Fraction(num, den)}")
+
+    for den in (100, 255):
+        for k in range(den + 1):
+            ds = [d for d in range(-255, 256) if d != 0 and (d * k) % den == 0]  # the inputs that could differ
+            if not ctx.quick:
+                trip = [(c1, c1 + d) for d in ds for c1 in range(256) if 0 <= c1 + d <= 255]
+            else:
+                trip = []
+                for d in ds:
+                    for _ in range(2):
+                        c1 = rng.randint(max(0, -d), min(255, 255 - d))
+                        trip.append((c1, c1 + d))
+            for _ in range(12 if ctx.quick else 200):  # and the others: fractional exact values
+                trip.append((rng.randrange(256), rng.randrange(256)))
+            while len(trip) % 3:
+                trip.append((rng.randrange(256), rng.randrange(256)))
+            for i in range(0, len(trip), 3):
+                t1 = tuple(x[0] for x in trip[i:i + 3])
+                t2 = tuple(x[1] for x in trip[i:i + 3])
+                got = blend_call(t1, t2, k / den, "k/%d" % den)
+                if got is not None:
+                    frac_eval(t1, t2, k, den, got)
+                else:
+                    ctx.check(False, "blend_rgb:float-vs-exact", (t1, t2, k, den), "blend_rgb raised on a cross-fade in [0, 1]")
+    specials = [0.0, -0.0, 1.0, 0.5, 1e-300, -1e-300, 1e300, 5e-324, 1e-200, -1e200, float("inf"), float("-inf"), float("nan"), 2.0**-53, 1 - 2.0**-53, 1 + 2.0**-52]
+
+    def rt():
+        return (rng.randrange(256), rng.randrange(256), rng.randrange(256))
+
+    for cf in specials:
+        for _ in range(6):
+            t1, t2 = rt(), rt()
+            if rng.random() < 0.5:
+                t2 = (t1[0], t2[1], t2[2])  # equal channel: 0 * inf = nan
+            got = blend_call(t1, t2, cf, "special")
+            if cf != cf or cf in (float("inf"), float("-inf")):
+                ctx.check(got is None, "blend_rgb:non-finite", (t1, t2, repr(cf)), "int() of a non-finite float did not raise")
+    for _ in range(12000 if ctx.quick else 300000):
+        kind = rng.randrange(4)
+        cf = rng.random() if kind < 2 else rng.uniform(-4, 4) if kind == 2 else rng.uniform(-1, 1) * 10.0 ** rng.randint(-30, 30)
+        t1, t2 = rt(), rt()
+        got = blend_call(t1, t2, cf, "in01" if 0 <= cf <= 1 else "outside")
+        if 0 <= cf <= 1:
+            ok = got is not None and all(min(p, q) <= x <= max(p, q) for x, p, q in zip(got, t1, t2))
+            # monotone rounding: the result is within one of the integer part of the exact blend with the exact value of the double
+            fr = Fraction(cf)
+            ok = ok and all(abs(x - int(p + (q - p) * fr)) <= 1 for x, p, q in zip(got, t1, t2))
+            ctx.check(ok, "blend_rgb:in-range", (t1, t2, repr(cf)), f"blend gave {got}: not between its arguments / not next to the exact blend")
+    for _ in range(2000 if ctx.quick else 20000):  # the exact-rational model against Python's Fractions
+        c1, c2, den = rng.randrange(256), rng.randrange(256), rng.choice([1, 2, 3, 7, 100, 255, 256, 1000, rng.randint(1, 10**6)])
+        k = rng.randint(-den, 2 * den)
+        v = c1 + (c2 - c1) * Fraction(k, den)
+        ctx.case("color.blendq", [c1, c2, k, den], str(int(v)), shape="q:" + ("in01" if 0 <= k <= den else "outside"))
+    ctx.flush()
+
+    # ---- 10. int(s, 16) on every code point (in both positions of a component), parse_rgb_hex on mixed strings
+    def py_int16(sx):
+        try:
+            return str(int(sx, 16))
+        except ValueError:
+            return "e"
+
+    def oracle_int16(sx):
+        """what the language reference says int(s, 16) accepts: Unicode decimal digits and white space count as their ASCII forms"""
+        out = []
+        for ch in sx:
+            if ord(ch) < 128:
+                out.append(ch)
+            elif unicodedata.decimal(ch, None) is not None:
+                out.append(str(unicodedata.decimal(ch)))
+            elif ch.isspace():
+                out.append(" ")
+            else:
+                return None
+        a = "".join(out).strip(" \t\n\r\x0b\x0c")
+        if a and a[0] in "+-":
+            sign, a = (-1 if a[0] == "-" else 1), a[1:]
+        else:
+            sign = 1
+        if not a or any(c not in "0123456789abcdefABCDEF" for c in a):
+            return None
+        v = 0
+        for c in a:
+            v = 16 * v + "0123456789abcdef".index(c.lower())
+        return sign * v
+
+    interesting = set()
+    for cp in range(128, 0x110000):
+        if 0xD800 <= cp <= 0xDFFF:
+            continue
+        ch = chr(cp)
+        if ch.isspace() or unicodedata.decimal(ch, None) is not None or ch.isdigit() or ch.isnumeric() and cp < 0x3000:
+            interesting.add(cp >> 8)
+    others = ["1", "f", " ", "-", "\u0663", "g", "\u3000"]
+    n_blocks = 0
+    for blk in range(0x110000 >> 8):
+        base = blk << 8
+        if 0xD800 <= base <= 0xDFFF:
+            continue
+        os_ = others if (blk in interesting or blk == 0) else [rng.choice(others)]
+        if ctx.quick and blk not in interesting and blk != 0 and blk >= 0x300 and rng.random() < 0.9:
+            continue  # quick: a tenth of the blocks from plane 3 on that hold no digit / space (almost all unassigned), chosen by the seed
+        for o in os_:
+            n_blocks += 1
+            parts = []
+            for i in range(256):
+                ch = chr(base + i)
+                parts.append(py_int16(ch + o) + "/" + py_int16(o + ch))
+            ctx.case("color.int16_block", [base, ord(o)], " ".join(parts), shape="int16:" + ("interesting" if blk in interesting or blk == 0 else "plain"))
+    ctx.note("int16 blocks of 256 code points", n_blocks)
+    alphabet = list("0123456789abcdefABCDEF") * 3 + list(" +-_xg\t\x1c") + ["\u0663", "\u0669", "\uff11", "\U0001d7d8", "\u00a0", "\u3000", "\u2028", "\u00e9", "\u00b2", "\u2460", "\u0bf0", "\x85"]
+    for _ in range(4000 if ctx.quick else 60000):
+        sx = "".join(rng.choice(alphabet) for _ in range(rng.choice([6, 6, 6, 6, 6, 5, 7])))
+        ans, got = L.call(lambda: parse_rgb_hex(sx), L.enc_triplet)
+        ctx.case("color.parse_hexu", [L.enc_str(sx)], ans, shape="u:" + (ans if ans.startswith("err") else "ok") + (":ascii" if sx.isascii() else ":unicode"), sample=f"parse_rgb_hex({sx!r})" if rng.random() < 0.005 else None)
+        if len(sx) == 6:
+            want = [oracle_int16(sx[i:i + 2]) for i in (0, 2, 4)]
+            first_bad = next((w for w in want if w is None), 0)
+            ok = (tuple(got) == tuple(want)) if first_bad == 0 and None not in want else ans == "err:ValueError"
+            ctx.check(ok, "parse_rgb_hex:unicode", sx, f"parse_rgb_hex gave {ans}; reading every Unicode decimal digit / space as its ASCII form gives {want}")
+        else:
+            ctx.check(ans == "err:AssertionError", "parse_rgb_hex", sx, f"length {len(sx)} gave {ans}")
+    ctx.flush()
+
+    # ---- 11. ColorTriplet.rgb (compared) and ColorTriplet.normalized (evaluated: correctly rounded c/255, never compared as floats)
+    for t in hex_ts[:1200]:
+        ct = ColorTriplet(*t)
+        ctx.case("color.rgbstr", ["%d,%d,%d" % t], L.enc_str(ct.rgb), shape="rgb")
+        ctx.check(ct.rgb == "rgb(%d,%d,%d)" % t, "ColorTriplet.rgb", t, f"rgb gave {ct.rgb!r}")
+    for v in range(256):
+        nz = ColorTriplet(v, 255 - v, (v * 7) % 256).normalized
+        want = (v, 255 - v, (v * 7) % 256)
+        ok = len(nz) == 3 and all(isinstance(x, float) and abs(Fraction(x) - Fraction(c, 255)) <= Fraction(1, 2**54) and (c not in (0, 255) or x == c // 255) for x, c in zip(nz, want))
+        ctx.check(ok, "ColorTriplet.normalized", want, f"normalized gave {nz!r}: not the doubles nearest to c/255")
+    ctx.flush()
 
 
 def work_triplets_entry(job):
@@ -442,21 +654,34 @@ MANIFEST = {
     "theme fg-bg (get_truecolor_spec, get_truecolor_sound, theme_init_spec), the colour a downgraded colour is displayed as is the palette entry at the "
     "matched index (downgrade_then_truecolor_is_palette_entry, downgrade_windows_shows_matched_entry, downgrade_eight_bit_then_truecolor); "
     "parse_rgb_hex inverts ColorTriplet.hex (parse_rgb_hex_roundtrip); blend_rgb with cross_fade k/2^n in [0,1] stays between its arguments "
-    "(blend_rgb_in_range, blend_rgb_endpoints). Palette side "
+    "(blend_rgb_in_range, blend_rgb_endpoints). Deepening 4 (49 theorems): the saturation test of the model equals the exact rational "
+    "one for EVERY triplet except exactly at the nine listed (max,min) pairs, where it says grey and exact arithmetic says not grey (sat_decision_exact_except_listed, sat_exception_direction); "
+    "blend_rgb modelled in IEEE-754 binary64 (blendChannelF: two roundings to 53 bits, truncation; inf/nan raise): stays between its arguments for every finite double cross_fade in [0,1] of any size "
+    "(blend_rgb_float_in_range, from the sandwich lemma rounding_sandwich: round-to-nearest-even never crosses a 53-bit number), end points (blend_rgb_float_endpoints), raises iff cross_fade is not finite "
+    "(blend_rgb_float_raises_iff_nonfinite), equals the exact-rational blend when nothing rounds (blend_rgb_float_exact_when_small; blend_dyadic_is_rational, blend_rgb_rational_in_range for any num/den), "
+    "and a decide-witness that at 0.29 the double result (28) is one below the exact blend 29 (blend_float_differs_from_rational_at_integers: float semantics, documented, not a finding); parse_rgb_hex on "
+    "any string, Unicode decimal digits / white space read as ASCII, other non-ASCII = ValueError (parse_rgb_hex_unicode_extends_ascii, parse_rgb_hex_unicode_length, table obligation decimal_runs_ok); "
+    "is_system_defined / is_default (is_system_defined_spec, is_default_spec, downgrade16_is_system_defined). Palette side "
     "conditions (sizes 16/16/256, components <= 255) are re-proved by decide +kernel on the tables translated from rich/_palettes.py on every run. "
     "Tie: quick = all 32,896 (max,min) channel pairs (float facts directly and through Color.downgrade in every channel arrangement), all 256 "
     "channel values, all 256 numbers x 3 indexed types + default + ill-formed colours x 4 systems x fg/bg, 30k random RGB, ~85k colours at "
     "palette decision boundaries / exact ties, 120 seeded custom TerminalThemes x 38 probe colours x fg/bg, every two-character ASCII string in a "
-    "component position of parse_rgb_hex, blend_rgb at cross_fade 1/2 on all 65,536 channel pairs + 8k dyadic cross-fades, ~780k compared cases "
-    "(781,218 in the committed quick run, seed 2) and about as many direct evaluations (incl. the documented 256-colour mapping, lib_color.doc256); thorough = additionally all 16,777,216 RGB x {standard, 256, windows} "
+    "component position of parse_rgb_hex, blend_rgb at cross_fade 1/2 on all 65,536 channel pairs + 8k dyadic cross-fades; deepening 4: color.satrat 32,896 (exact decision + is-exception flag "
+    "against colorsys and Fractions), color.blendf ~18,000 (k/100, k/255 at every integral exact value, specials, random doubles), color.blendq 2,000, color.int16_block ~1,400 blocks x 512 int() calls, "
+    "color.parse_hexu 4,000, color.rgbstr 1,200, color.props 1,287; ~842k compared cases "
+    "(842,022 in the quick run of seed 3, 34 unmodelled) and about as many direct evaluations (incl. the documented 256-colour mapping, lib_color.doc256); thorough = additionally all 16,777,216 RGB x {standard, 256, windows} "
     "through the function behind Color.downgrade's lru_cache (getattr(f, '__wrapped__', f): no dependence on the attribute) in 16 processes, each also evaluated against an independent integer oracle.",
     "note": "Partial where the Python runtime carries the truth: c/255.0, colorsys.rgb_to_hls and round() are modelled by exact rational arithmetic "
     "plus a 9-entry exception list for the double-precision saturation test `s < 0.1` (all nine are exact ties, sat_exceptions_are_ties); the "
     "theorems hold for every exception list, the list itself and the rounding formulas are validated exhaustively on every run, not proved. "
     "Palette.match compares integers where the code compares math.sqrt of them: justified by dist2_le (radicand <= 649,740) and an exhaustive "
     "per-run check that sqrt is strictly increasing on 0..700,000. functools.lru_cache is assumed transparent (cached vs uncached function - getattr(f, '__wrapped__', f) - compared). "
-    "get_truecolor is modelled for arbitrary TerminalTheme objects (TerminalTheme.__init__ included) and compared under random custom themes; blend_rgb only for dyadic cross_fade k/2^n, parse_rgb_hex only on ASCII strings. Numbers/components are naturals: negative indices and "
-    "components above 255 answer `unmodelled`. One genuine defect found in rich 9.10.0 as found: downgrade(STANDARD) renumbered 16-colour WINDOWS / EIGHT_BIT(<16) "
+    "get_truecolor is modelled for arbitrary TerminalTheme objects (TerminalTheme.__init__ included) and compared under random custom themes. blend_rgb in doubles is exact for every float with exponent in "
+    "[-900, 900], 0, inf, nan (24 seeded requests with 1e300 / 1e-300 / 5e-324 answer `unmodelled`); for cross_fade = k/100, k/255 the relation to the exact rational blend is NOT a theorem (k/100 is not a double): "
+    "the harness evaluates on real rich that the results differ only where the exact value is an integer, and then by exactly one downwards (20-30 such inputs per quick run). parse_rgb_hex on non-ASCII rests on the runtime "
+    "tables of the running Python (validated per code point each run; a seeded tenth of the unassigned planes in quick); lone surrogates not covered. ColorTriplet.normalized is evaluated (nearest doubles of c/255), "
+    "not modelled. The nine-pair list is still a validated constant: the new theorem says where the model deviates from exact arithmetic, the per-run check (all 32,896 pairs) says that real colorsys deviates at exactly those. "
+    "Numbers/components are naturals: negative indices and components above 255 answer `unmodelled`. One genuine defect found in rich 9.10.0 as found: downgrade(STANDARD) renumbered 16-colour WINDOWS / EIGHT_BIT(<16) "
     "colours (8->7, 9->1, 10->2, 12->4); repaired in /repo by fix 2cec9e1 (= pending_fixes/C18-downgrade-standard-keeps-16-colour-index.diff), "
     "STD_VIA_PALETTE holds the repaired value 0; a regression would print VIOLATION at site downgrade:representable (slug "
     "downgrade-standard-renumbers-16-colour-index). known_findings.txt has no `known:` line for C18: no KNOWN-FINDING line is printed.",
